@@ -63,7 +63,7 @@ inline cocls::generator<int> src_plain(World *w, int id) {
         if (gi >= 0) co_await *w->gates[(size_t)id][(size_t)gi].f;
         co_yield id * 1000 + k;
     }
-    if (s.throws) throw val::TestExc(id);
+    if (s.throws) { if (id & 1) throw val::PlainExc{id}; throw val::TestExc(id); }       // (odd sources throw a type that is not derived from std::exception)
 }
 inline cocls::generator<int, int> src_arg(World *w, int id) {
     SrcGuard guard;
@@ -74,7 +74,7 @@ inline cocls::generator<int, int> src_arg(World *w, int id) {
         if (gi >= 0) co_await *w->gates[(size_t)id][(size_t)gi].f;
         arg = co_yield id * 1000 + (arg % 10) * 100 + k;
     }
-    if (s.throws) throw val::TestExc(id);
+    if (s.throws) { if (id & 1) throw val::PlainExc{id}; throw val::TestExc(id); }       // (odd sources throw a type that is not derived from std::exception)
 }
 
 struct Result { std::vector<int> got; std::vector<int> args_sent; int end = -100; bool destroyed_early = false; };
@@ -91,13 +91,13 @@ void consume_blocking(G &agg, const Prog &p, Result &res, int bound) {
             try {
                 if constexpr (ARG) { auto f = agg(a); f.sync(); if (!f.has_value()) { res.end = -1; return; } res.got.push_back(f.value()); }
                 else { auto f = agg(); f.sync(); if (!f.has_value()) { res.end = -1; return; } res.got.push_back(f.value()); }
-            } catch (const val::TestExc &e) { res.end = 1000 + e.id; return; }
+            } catch (const val::TestExc &e) { res.end = 1000 + e.id; return; } catch (const val::PlainExc &e) { res.end = 1000 + e.id; return; }
             continue;
         }
         if constexpr (ARG) more = (bool)agg.next(a); else more = (bool)agg.next();
         if (!more) { res.end = -1; return; }
         try { res.got.push_back(agg.value()); }
-        catch (const val::TestExc &e) { res.end = 1000 + e.id; return; }
+        catch (const val::TestExc &e) { res.end = 1000 + e.id; return; } catch (const val::PlainExc &e) { res.end = 1000 + e.id; return; }
     }
 }
 template<class G, bool ARG>
@@ -113,14 +113,14 @@ cocls::async<void> consume_coro(G &agg, const Prog &p, Result &res, int bound) {
             try {
                 if constexpr (ARG) { auto f = agg(a); bool hv = co_await f.has_value(); if (!hv) { res.end = -1; stop = true; } else res.got.push_back(f.value()); }
                 else { auto f = agg(); bool hv = co_await f.has_value(); if (!hv) { res.end = -1; stop = true; } else res.got.push_back(f.value()); }
-            } catch (const val::TestExc &e) { res.end = 1000 + e.id; stop = true; }
+            } catch (const val::TestExc &e) { res.end = 1000 + e.id; stop = true; } catch (const val::PlainExc &e) { res.end = 1000 + e.id; stop = true; }
             if (stop) co_return;
             continue;
         }
         if constexpr (ARG) { more = co_await agg.next(a); } else { more = co_await agg.next(); }
         if (!more) { res.end = -1; co_return; }
         try { res.got.push_back(agg.value()); }
-        catch (const val::TestExc &e) { res.end = 1000 + e.id; co_return; }
+        catch (const val::TestExc &e) { res.end = 1000 + e.id; co_return; } catch (const val::PlainExc &e) { res.end = 1000 + e.id; co_return; }
     }
 }
 
